@@ -17,7 +17,7 @@
     - [reachable_rule fs roots ts r]: [r] is a declared rule reachable from a
       requested name. *)
 From Coq Require Import List String Bool Arith Permutation Relations.
-From Verif Require Import Caco.Load Caco.LoadProofs.
+From Verif Require Import Caco.Load Caco.LoadProofs Caco.LoadGen Gen.CacoBuild.
 Import ListNotations.
 Local Open Scope string_scope.
 
@@ -77,6 +77,21 @@ Theorem C11_order_irrelevant : forall fs fs' roots roots' kind ts,
   end.
 Proof. exact order_irrelevant. Qed.
 Print Assumptions C11_order_irrelevant.
+
+(** The loader of the current source still has the shape the model was
+    written against: statement skeletons of register / load / load1 /
+    registerOuts / readBuildFile / loadNodes / the tracer / buildNodes and of
+    lexing.ErrorList regenerated from /repo equal the recorded ones; the
+    reader is guarded by the set of directories read; load1 checks tracer,
+    memo, nodes in this order; the error list cap is the model's. *)
+Theorem C11_loader_shape_frozen :
+  loader_frozenb = true /\
+  read_guard_okb = true /\
+  load1_order_okb = true /\
+  loadnodes_order_okb = true /\
+  gen_max_errs = max_errs.
+Proof. exact gen_loader_shape. Qed.
+Print Assumptions C11_loader_shape_frozen.
 
 (** ** Non-vacuity: concrete workspaces on which the statements bite. *)
 
